@@ -4,7 +4,7 @@ CFG = dict(
     coq="Properties/C13.v",
     areas=["purity"],
     level="proof",
-    theorems_expected=["C13_lookahead_clamped", "C13_enc_partition_independent_lzma1", "C13_lzma2_run_exact_partial", "C13_history_kept"],
+    theorems_expected=["C13_lookahead_clamped", "C13_enc_partition_independent_lzma1", "C13_enc_partition_independent_lzma2", "C13_lzma2_run_exact", "C13_history_kept"],
     rule="purity: cases = (option vector, writer kind LZMAWriter header/marker/declared-size variants | LZIPWriter with/without member size | "
          "LZMA2Writer | XZWriter (no chunk/block size for the C13 verdict), optional preset dictionary, data from 10 compressibility classes plus "
          "multi-100-KiB cases that fill and move the encoder window and reach the LZMA2 chunk limits, TWO write partitions of the same data "
@@ -19,7 +19,7 @@ CFG = dict(
                               "NOT modelled: HC4/BT4 match finders and the fast/normal parsers; they enter the theorems as an arbitrary strategy over clamped observations (see the header of Properties/C13.v) — the assumption that the real ones are such strategies (function of window content, own zero-initialised state, clamped avail) is why this property is claimed partial",
                               "allocator-state independence cannot be expressed in the model: covered only by the repeated-run comparison after heap churn"],
     assumptions=["the real match finders and parsers are functions of the window content in [read_pos - dict_size, read_pos + clamp), of their own (zero-initialised) state and of the clamped avail values; they use lz.get_pos() only modulo a power of two <= 16",
-                 "LZMA2/XZ partition independence is proved only up to single consultations (lookahead_clamped) and run safety; the composition over the chunk loop is checked by the correspondence run, not proved",
+                 "the range coder enters the LZMA2 theorems as an oracle (one bit per symbol, compressed size per chunk) with the contract 1 <= c, c + 2 <= 65536, bit <-> c > 65510; the correspondence run checks the contract on every chunk",
                  "multi-threaded writers (worker counts, schedules) are decided by the MT protocol development, not here",
                  "in-memory sink without faults (C05)"],
 )
